@@ -434,8 +434,21 @@ def pipeline_dump(text, gopts=None, with_nnf=True):
     nn = {}
     res["hasnnf"] = 0
     res["nnf"] = []
+    res["cc"], res["nc"] = [], []
+
+    def enc_cons(c, var_of):
+        nodes = [n for n in c.get_nodes() if n is not None]
+        extra = getattr(c, "extra_node", None)
+        body = sorted(var_of(n) for n in nodes if n != extra)
+        return [1 if isinstance(c, ConstraintAD) else 2, var_of(extra) if extra is not None else 0] + body
     if with_nnf:
         nnf = DDNNF.create_from(cnf)
+        res["cc"] = sorted(enc_cons(c, lambda n: n) for c in cnf.constraints())
+
+        def nnf_var(k):
+            nd_ = nnf.get_node(abs(k))
+            return (int(nd_.identifier) if type(nd_).__name__ == "atom" else -abs(k) - 100000) * (1 if k > 0 else -1)
+        res["nc"] = sorted(enc_cons(c, nnf_var) for c in nnf.constraints())
         res["nnf"] = _dump_graph(nnf, var_of_identifier=True)
         res["hasnnf"] = 1
         nn = _label_names(nnf)
